@@ -149,6 +149,21 @@ def _test_key(node):
     return ast.unparse(t), lab, {x.id for x in ast.walk(t) if isinstance(x, ast.Name)} | {ast.unparse(x) for x in ast.walk(t) if isinstance(x, ast.Attribute)}
 
 
+def _nonempty_literal(e):
+    return isinstance(e, (ast.Tuple, ast.List)) and e.elts and not any(isinstance(x, ast.Starred) for x in e.elts)
+
+
+def _nonempty_iter(fi, it):
+    if _nonempty_literal(it):
+        return True
+    if isinstance(it, ast.Call) and isinstance(it.func, ast.Name):
+        g = fi.module.functions.get(it.func.id)
+        if g is not None and not any(isinstance(x, (ast.Yield, ast.YieldFrom)) for x in walk_no_nested(g.node)):
+            rets = [x for x in walk_no_nested(g.node) if isinstance(x, ast.Return)]
+            return bool(rets) and all(r.value is not None and _nonempty_literal(r.value) for r in rets)
+    return False
+
+
 def feasible_unbound_path(fi, name, use_nid):
     """Is there a def-free path entry -> use that never takes two branches
     with the same test text and opposite outcomes (without a store to a name
@@ -199,6 +214,12 @@ def feasible_unbound_path(fi, name, use_nid):
                         t_ = t_.operand
                     guard_tests.add(ast.unparse(t_))
     relevant &= guard_tests
+    # a `for` over a provably non-empty iterable (a non-empty literal, or a module function all of whose returns are
+    # non-empty literals) runs its body at least once: the `exhausted` edge is infeasible until the body was entered
+    nonempty_for = {}
+    for n in cfg.nodes.values():
+        if n.kind == "branch" and n.label in ("iter", "exhausted") and isinstance(n.test, ast.For) and _nonempty_iter(fi, n.test.iter):
+            nonempty_for[n.id] = (n.label, "\0for%d" % id(n.test))
     start = (cfg.entry, frozenset())
     seen = {start}
     stack = [start]
@@ -206,6 +227,12 @@ def feasible_unbound_path(fi, name, use_nid):
         nid, facts = stack.pop()
         for s in cfg.g.successors(nid):
             f2 = facts
+            if s in nonempty_for:
+                lab_, key_ = nonempty_for[s]
+                if lab_ == "exhausted" and (key_, True) not in facts:
+                    continue
+                if lab_ == "iter":
+                    f2 = facts | {(key_, True)}
             if s in keys:
                 t, lab, names = keys[s]
                 if t in relevant:
@@ -221,7 +248,7 @@ def feasible_unbound_path(fi, name, use_nid):
                 continue
             if ds and f2:
                 # a store to a name used by a remembered test forgets that test
-                f2 = frozenset((t, l) for t, l in f2 if not (ds & _names_of(t)))
+                f2 = frozenset((t, l) for t, l in f2 if t.startswith("\0") or not (ds & _names_of(t)))
             st = (s, f2)
             if st not in seen:
                 seen.add(st)
